@@ -49,6 +49,38 @@ pub fn dispatch(_cex: &Value) -> Result<String, String> {
         log.push(format!("[dispatch] EcDSAJwsVerifier: {name}: {}", if want { "rejected" } else { "reported verified" }));
       }
     }
+    // the whole key takes part: a JWK whose y (or x) has one flipped bit is another point (or none) and never verifies
+    for (curve, alg, sig, x, y) in [
+      (EcCurve::P256, JwsAlgorithm::ES256, &ps, p_pt.x().unwrap().to_vec(), p_pt.y().unwrap().to_vec()),
+      (EcCurve::Secp256K1, JwsAlgorithm::ES256K, &ks, k_pt.x().unwrap().to_vec(), k_pt.y().unwrap().to_vec()),
+    ] {
+      'bits: for which in 0..2 {
+        for i in 0..32 {
+          for bit in 0..8 {
+            let (mut x2, mut y2) = (x.clone(), y.clone());
+            if which == 0 {
+              y2[i] ^= 1 << bit;
+            } else {
+              x2[i] ^= 1 << bit;
+            }
+            let key = ec_jwk(curve, &x2, &y2);
+            if run(alg, sig, &key) {
+              log.push(format!("[dispatch] {alg:?}: verified under a key whose {} has bit {bit} of byte {i} flipped", if which == 0 { "y" } else { "x" }));
+              break 'bits;
+            }
+          }
+        }
+      }
+      // coordinates of another length
+      for (x2, y2) in [(x[..31].to_vec(), y.clone()), (x.clone(), y[..31].to_vec()), ([x.clone(), vec![0]].concat(), y.clone()), (x.clone(), [y.clone(), vec![0]].concat()), (vec![], vec![])] {
+        let key = ec_jwk(curve, &x2, &y2);
+        match no_panic(std::panic::AssertUnwindSafe(|| run(alg, sig, &key))) {
+          Err(msg) => log.push(format!("[dispatch] {alg:?}: key with coordinates of {} / {} bytes: panicked: {msg}", x2.len(), y2.len())),
+          Ok(true) => log.push(format!("[dispatch] {alg:?}: verified under a key with coordinates of {} / {} bytes", x2.len(), y2.len())),
+          Ok(false) => {}
+        }
+      }
+    }
     // Ed25519 (RFC 8037 A.4 vector): the whole decoded signature takes part - extra bytes, a missing byte and every single-bit flip fail
     {
       let msg_ed = b"eyJhbGciOiJFZERTQSJ9.RXhhbXBsZSBvZiBFZDI1NTE5IHNpZ25pbmc";
